@@ -302,8 +302,14 @@ func runC13(ctx *Ctx) *Result {
 		}
 		os.RemoveAll(dir)
 		ans := drv.Ask(c13Line(es))
-		modelSteps, tail, _ := strings.Cut(ans, " | ")
-		// the model's L for "no current policy" is not observable; harness always starts with np
+		modelStepsRaw, tail, _ := strings.Cut(ans, " | ")
+		var modelParts, specParts []string
+		for _, st := range strings.Split(modelStepsRaw, ";") {
+			m, sp, _ := strings.Cut(st, " @")
+			modelParts = append(modelParts, m)
+			specParts = append(specParts, sp)
+		}
+		modelSteps := strings.Join(modelParts, ";")
 		implS := strings.Join(impl, ";")
 		kinds := map[string]int{}
 		for _, e := range es {
@@ -316,54 +322,46 @@ func runC13(ctx *Ctx) *Result {
 		res.Count(fmt.Sprintf("len:%02d", len(es)))
 		if implS != modelSteps {
 			res.Disagree("c13 status+listing per event", es, implS, modelSteps)
-			return
+			// go on: the oracle below compares the REAL listing with the specification
 		}
-		// direct oracle on the real binary's final answer
-		last := impl[len(impl)-1]
-		listed := strings.HasSuffix(last, "L=1")
-		flags := map[string]string{}
-		for _, f := range strings.Fields(tail) {
-			k, v, _ := strings.Cut(f, "=")
-			flags[k] = v
-		}
-		res.Count("final:needs=" + flags["needs"] + ",listed=" + last[len(last)-1:])
-		if flags["needs"] == "1" && !listed {
-			pred := "other"
-			switch {
-			case flags["hazardAtFail"] == "1":
-				pred = "failed_approve_erases_newer_ok_falls_back_to_stale_uptodate"
-			case flags["curnonempty"] == "0":
-				pred = "observed_policy_removed_and_current_code_empty"
+		// direct oracle on the real binary's answer after EVERY event (specification side computed in Lean)
+		for k := range impl {
+			if k >= len(specParts) {
+				break
 			}
-			res.Fail(map[string]any{"pred": pred, "half": "listing"},
-				"missing-approve does not list a device whose latest conclusive observation does not establish the current code: "+c13Line(es),
-				es)
-		}
-		if flags["needs"] == "0" && listed {
-			// omission half: only a failure if the observed policy is still on disk
-			obs := flags["obs"]
-			p := 0
-			if i := strings.LastIndex(obs, "@"); i >= 0 {
-				p, _ = strconv.Atoi(obs[i+1:])
+			flags := map[string]string{}
+			for _, f := range strings.Split(specParts[k], ",") {
+				kk, v, _ := strings.Cut(f, "=")
+				flags[kk] = v
 			}
-			onDisk := true
-			for _, e := range es {
-				if e.Kind == "rm" && e.Arg == strconv.Itoa(p) {
-					onDisk = false // (rm of a not yet existing / current policy is a no-op; conservative)
+			listed := strings.HasSuffix(impl[k], "L=1")
+			prefix := es[:k+1]
+			if k == len(impl)-1 {
+				res.Count("final:needs=" + flags["needs"] + ",listed=" + impl[k][len(impl[k])-1:])
+			}
+			if flags["needs"] == "1" && !listed {
+				pred := "other"
+				switch {
+				case flags["hz"] == "1":
+					pred = "failed_approve_erases_newer_ok_falls_back_to_stale_uptodate"
+				case flags["ne"] == "0":
+					pred = "observed_policy_removed_and_current_code_empty"
 				}
+				res.Fail(map[string]any{"pred": pred, "half": "listing"},
+					"missing-approve does not list a device whose latest conclusive observation does not establish the current code: "+c13Line(prefix), prefix)
 			}
-			if onDisk {
-				switch flags["dirtyBy"] {
+			if flags["needs"] == "0" && listed && flags["od"] == "1" {
+				switch flags["db"] {
 				case "fail":
 					res.Fail(map[string]any{"pred": "failed_approve_overwrites_record_of_successful_approve", "half": "omission"},
-						"missing-approve lists a device whose latest conclusive observation establishes the current code: "+c13Line(es), es)
+						"missing-approve lists a device whose latest conclusive observation establishes the current code: "+c13Line(prefix), prefix)
 				case "cmperr", "dmg":
 					// a compare that ended with errors must record DIFF (C09) and a damaged status file must
 					// lead to listing (listing half): the record is legitimately gone, not a violation
-					res.Count("omission-excused:" + flags["dirtyBy"])
+					res.Count("omission-excused:" + flags["db"])
 				default:
 					res.Fail(map[string]any{"pred": "other", "half": "omission"},
-						"missing-approve lists a device whose latest conclusive observation establishes the current code: "+c13Line(es), es)
+						"missing-approve lists a device whose latest conclusive observation establishes the current code: "+c13Line(prefix), prefix)
 				}
 			}
 		}
